@@ -29,6 +29,12 @@ MODELLED += DES_BCRYPT
 
 IDENTIFY_CHECKED += DES_BCRYPT
 
+#: the PBKDF family (Model/Formats/Pbkdf.lean)
+PBKDF_FAMILY = ["sha1_crypt", "pbkdf2_sha1", "pbkdf2_sha256", "pbkdf2_sha512", "ldap_pbkdf2_sha1", "ldap_pbkdf2_sha256",
+                "ldap_pbkdf2_sha512", "cta_pbkdf2_sha1", "dlitz_pbkdf2_sha1", "atlassian_pbkdf2_sha1", "grub_pbkdf2_sha512",
+                "django_pbkdf2_sha1", "django_pbkdf2_sha256", "django_salted_md5", "django_salted_sha1"]
+MODELLED += PBKDF_FAMILY
+
 
 def cps(s) -> str:
     if isinstance(s, bytes):
@@ -183,6 +189,83 @@ def variants(h, name, s, rng):
         out += static_variants(name, s, rng)
     if name in DES_BCRYPT:
         out += des_bcrypt_variants(name, s, rng)
+    if name == "dlitz_pbkdf2_sha1":
+        # rounds 400 are elided by to_string; "190" is the explicit spelling; upper-case / prefixed hex digits
+        x = handler(name).using(rounds=400).hash("pw")
+        out += [x, x.replace("$p5k2$$", "$p5k2$190$", 1), x.replace("$p5k2$$", "$p5k2$+0x190$", 1)]
+        y = handler(name).using(rounds=0xABCDEF).hash("pw")
+        out += [y, y.replace("abcdef", "ABCDEF", 1), y.replace("abcdef", "aB_cD_ef", 1)]
+    if name == "cta_pbkdf2_sha1":
+        y = handler(name).using(rounds=0xABC).hash("pw")
+        out += [y, y.replace("$abc$", "$ABC$", 1), y.replace("$abc$", "$ 0XaBc $", 1), y.replace("-", "+").replace("_", "/")]
+    if name == "grub_pbkdf2_sha512":
+        out += [s.rsplit(".", 1)[0], s.rsplit(".", 1)[0] + ".", s.lower()]
+    if name.startswith("pbkdf2_sha") or name.startswith("ldap_pbkdf2"):
+        out.append(s.replace(".", "+"))          # ab64_decode also takes the standard alphabet
+        if name.startswith("ldap_"):
+            out += [s.rsplit("$", 1)[0], s.rsplit("$", 1)[0] + "$"]
+    if name in PBKDF_FAMILY and (name not in _EDGE_DONE or rng.random() < 0.2):
+        _EDGE_DONE.add(name)
+        out += pbkdf_edge_cases(name, s, rng)
+    return out
+
+
+#: spellings of an integer field that exercise int(s, base): signs, blanks, underscores, prefixes, non-ASCII digits, limits
+_INT_EDGE = ["0", "1", "4294967295", "4294967296", "-1", "+5", " 5", "5 ", "5_0", "5__0", "_5", "5_", "\u0665", "\uff15", "1e3", "0x10",
+             "+0x10", " 0X_1f", "+0x_1_f", "-0x1", "00", "01", "", "ffffffff", "100000000", "FFFFFFFF", "fF", "\t1f\n", "1f\x00", "0b1",
+             "0o7", "+", "-", " ", "0x", "+0x", "+0x_", "+0x__1", "1\xa0", "\x1c7", "1 2", "+ 1", "x1", "1g"]
+
+#: spellings of a base64 field that exercise the lenient C decoder: misplaced / excess padding, foreign characters, bad lengths
+_B64_EDGE = ["", "=", "==", "====", "A", "AA", "AAA", "AAAA", "AAAAA", "A=", "AA=", "AA==", "AAA=", "AA=A", "A=A=", "A=AA", "AA=AA",
+             "AA==AA", "AAA=AAAA", "!!", "!!!!", "A!A", "A A", "AA\n", "+/", "./", "-_", "\xe9A", "A\x00A", "=AAA", "==AA", "A==A"]
+
+
+_EDGE_DONE: set = set()
+
+
+def pbkdf_edge_cases(name, s, rng):
+    """structured corruptions of a valid hash of the PBKDF family: every field replaced by edge-case spellings"""
+    import base64
+    import os
+
+    out = []
+    h = handler(name)
+    if name == "atlassian_pbkdf2_sha1":
+        pre, body = s[:9], s[9:]
+        out += [pre + body + x for x in ("=", "==", "A", "AAAA", "!", " ")] + [pre + body[:-k] for k in (1, 2, 3, 4)]
+        out += [pre + x + body for x in ("=", "!", "A", "AAAA")] + [pre + body[:20] + x + body[20:] for x in ("=", "==", "!", "\n", "\xe9")]
+        out += [pre + base64.b64encode(os.urandom(n)).decode() for n in (0, 15, 16, 47, 48, 49, 50, 51)] + [pre + x for x in _B64_EDGE]
+        return out
+    if name in ("django_salted_md5", "django_salted_sha1"):
+        pre, rest = s.split("$", 1)
+        salt, chk = rest.split("$")
+        out += [f"{pre}${x}${chk}" for x in ("", "a", salt + "!", salt + ".", salt + "\xe9", salt * 50, "$")]
+        out += [f"{pre}${salt}${x}" for x in ("", chk[:-1], chk + "0", chk.upper(), chk[:-1] + "g", chk[:-1] + "\xe9", "0" * len(chk))]
+        out += [f"{pre}${salt}", f"{pre}$", pre, f"{pre}${salt}${chk}$", f"{pre.upper()}${salt}${chk}"]
+        return out
+    sep = "." if name == "grub_pbkdf2_sha512" else "$"
+    ident = {"grub_pbkdf2_sha512": "grub.pbkdf2.sha512."}.get(name) or (h.prefix if is_wrapper(h) else h.ident)
+    if not s.startswith(ident):
+        return out
+    parts = s[len(ident):].split(sep)
+    if len(parts) != 3:
+        return out
+    rounds, salt, chk = parts
+    mk = lambda r, sa, c: ident + sep.join([r, sa] + ([] if c is None else [c]))
+    out += [mk(x, salt, chk) for x in _INT_EDGE] + [mk(x, salt, None) for x in _INT_EDGE[:8]]
+    if name == "grub_pbkdf2_sha512":
+        fields = ["", "0", "00", "0g", "ab", "AB", "aB", "abc", "0x", " 00", "00 ", "\xe9\xe9", "00" * 1024, "00" * 1025, "+1"]
+    elif name in ("sha1_crypt", "dlitz_pbkdf2_sha1", "django_pbkdf2_sha1", "django_pbkdf2_sha256"):
+        fields = ["", "a", "ab", "a" * 64, "a" * 65, "a" * 1024, "a" * 1025, "a!", "a.", "a/", "a=", "a+", "a b", "\xe9", "a\x00"]
+    else:
+        enc = (lambda b: base64.b64encode(b, b"-_").decode()) if name == "cta_pbkdf2_sha1" else (lambda b: base64.b64encode(b, b"./").decode().rstrip("="))
+        fields = _B64_EDGE + [enc(os.urandom(n)) for n in (1, 2, 3, 19, 20, 21, 31, 32, 33, 63, 64, 65, 1023, 1024, 1025, 1026)]
+        fields += [salt + "=", salt + "==", salt + "===", salt[:-1], salt + "A", salt[:3] + "=" + salt[3:], salt[:2] + "==" + salt[2:], salt[:5] + "!" + salt[5:]]
+    out += [mk(rounds, x, chk) for x in fields] + [mk(rounds, x, None) for x in fields[:6]]
+    cf = fields + [chk + "=", chk + "==", chk[:-1], chk[:-2], chk + "A", chk + "AA", chk[:3] + "=" + chk[3:], chk[:5] + "!" + chk[5:], chk.swapcase()]
+    out += [mk(rounds, salt, x) for x in cf]
+    out += [ident, ident + sep, ident + sep + sep, ident + rounds, mk(rounds, salt, chk) + sep, mk(rounds, salt, chk) + sep + "x",
+            ident.upper() + s[len(ident):], ident[:-1] + s[len(ident):]]
     return out
 
 
